@@ -18,9 +18,10 @@ def modelled : Bool := true
 /-! ### Pure field conversions -/
 
 /-- `selected_altitude` (u16, overflow-checked):
-    `if altitude > 1 { Some(((altitude - 1) * 32 + 16) / 100 * 100) } else { None }` -/
+    `if altitude > 0 { Some(((altitude - 1) * 32 + 16) / 100 * 100) } else { None }`
+    (code 1 = 0 ft; before the C03 repair the test was `altitude > 1`) -/
 def selectedAltitude (altitude : Nat) : Outcome (Option Nat) :=
-  if altitude > 1 then do
+  if altitude > 0 then do
     let a ← subU altitude 1
     let b ← mulU 16 a 32
     let c ← addU 16 b 16
